@@ -902,12 +902,12 @@ found:
 			if escape {
 				// Continuation line - remove \ then continue
 				if c == '\n' {
-					if rawString {
-						// in a raw string the backslash and the newline stay
-						_, _ = buf.WriteRune(c)
-					} else {
-						buf.Truncate(buf.Len() - 1)
-					}
+					// The backslash and the newline stay: in a raw
+					// string they are part of the value, otherwise
+					// DecodeEscape drops the pair (removing it here
+					// would let an escape sequence go on across the
+					// line join: '\1<backslash-newline>1' is '\x01' '1')
+					_, _ = buf.WriteRune(c)
 					continued = true
 					goto readMore
 				}
